@@ -141,6 +141,9 @@ type eventer2 struct {
 	b2.EventerBase
 }
 
+// leaseCtxCancelled: the next mock-level cases run with a context that is already cancelled
+var leaseCtxCancelled bool
+
 // one case against one generation at the mock level
 // leaseCaseMock runs one call against in-package fakes.  prev >= 0 (kind "create" only): the same manager has
 // already served a CreatePartitions(prev) call whose uploads all failed; the call that is recorded must behave
@@ -172,6 +175,14 @@ func leaseCaseMockPrev(log *leaseLog, gen int, kind string, n int, index int, ou
 		blob.acquires = outcomes[0]
 	}
 	ctx := context.Background()
+	if leaseCtxCancelled {
+		// the caller's context is already cancelled (a resource that is shutting down): the outcome of the storage
+		// call is classified and reported exactly as with a live context
+		c, cancel := context.WithCancel(ctx)
+		cancel()
+		ctx = c
+		log.f("note ctx-cancelled")
+	}
 	key := "a2V5" // base64
 	if gen == 1 {
 		m := b1.VerifNewBlobLeaseManager("acct", "cont", &key, cont, blob, leaseListener(log))
@@ -328,6 +339,14 @@ func RunLease(t *testing.T, seed int64, thorough bool, out io.Writer) {
 			leaseCaseMock(log, gen, "lease", 0, rng.Intn(500), []string{o})
 			leaseCaseMock(log, gen, "create", 1, 0, []string{o})
 		}
+		// the same with a context that is already cancelled when the call is made
+		leaseCtxCancelled = true
+		for _, o := range all {
+			leaseCaseMock(log, gen, "provision", 0, 0, []string{o})
+			leaseCaseMock(log, gen, "lease", 0, rng.Intn(500), []string{o})
+			leaseCaseMock(log, gen, "create", 2, 0, []string{o, o})
+		}
+		leaseCtxCancelled = false
 		// every position of runs with n <= 4 (exhaustive over a small alphabet incl. the interesting codes)
 		alpha := []string{"ok", "BlobAlreadyExists", "LeaseIdMissing", "other", "ServerBusy", "LeaseAlreadyPresent"}
 		maxn := 3
